@@ -54,8 +54,72 @@ func keyKind(c *Ctx, key ssa.Value) string {
 		if b, ok := call.Call.Value.(*ssa.Builtin); ok && b.Name() == "append" && isGlobalLoad(peel(call.Call.Args[0]), c.a.KeyValue) {
 			return "value"
 		}
+		// binary.BigEndian.AppendUint64(append(empty, prefix...), idx)
+		if strings.HasSuffix(calleeName(&call.Call), ".AppendUint64") && prefixedEmpty(c, call.Call.Args[len(call.Call.Args)-2]) {
+			return "value"
+		}
+		// a helper that builds the key: every return is a bitmap key
+		if _, _, vals, ok := resultOrigins(c.w, key); ok {
+			all := true
+			for _, rv := range vals {
+				if keyKindDepth(c, rv, 1) != "value" {
+					all = false
+				}
+			}
+			if all {
+				return "value"
+			}
+		}
+	}
+	// a phi of bitmap keys
+	if phi, ok := key.(*ssa.Phi); ok {
+		all := len(phi.Edges) > 0
+		for _, e := range phi.Edges {
+			if keyKind(c, e) != "value" {
+				all = false
+			}
+		}
+		if all {
+			return "value"
+		}
 	}
 	return ""
+}
+
+func keyKindDepth(c *Ctx, v ssa.Value, depth int) string {
+	if depth > 2 {
+		return ""
+	}
+	return keyKind(c, v)
+}
+
+// prefixedEmpty: v is append(x, keyPrefixValue...) where x is an empty slice (make with length 0 / nil).
+func prefixedEmpty(c *Ctx, v ssa.Value) bool {
+	call, ok := v.(*ssa.Call)
+	if !ok {
+		return false
+	}
+	b, ok := call.Call.Value.(*ssa.Builtin)
+	if !ok || b.Name() != "append" || len(call.Call.Args) != 2 {
+		return false
+	}
+	if !isGlobalLoad(peel(call.Call.Args[1]), c.a.KeyValue) {
+		return false
+	}
+	switch x := call.Call.Args[0].(type) {
+	case *ssa.Const:
+		return x.IsNil()
+	case *ssa.MakeSlice:
+		k, ok := constInt(x.Len)
+		return ok && k == 0
+	case *ssa.Slice:
+		// make([]byte, 0, constCap) is lowered to new [cap]byte; slice [:0]
+		if _, isAlloc := x.X.(*ssa.Alloc); isAlloc && x.High != nil {
+			k, ok := constInt(x.High)
+			return ok && k == 0 && x.Low == nil
+		}
+	}
+	return false
 }
 
 func runC06(c *Ctx) {
